@@ -13,7 +13,7 @@ let of_spec s = match split_on '.' s with
   | _ -> failwith "arp spec"
 
 let desc = { fresh = arp_fresh; decode = arp_decode_into; serialize = Some arp_serialize; fields;
-  contents = (fun l -> l.a_contents); payload = (fun l -> l.a_payload); next = (fun _ -> "payload");
+  contents = (fun l -> l.a_contents); payload = (fun l -> l.a_payload); next = (fun _ _ -> "payload");
   render_panics = arp_render_panics; of_spec; junk_len = 1200 }
 let run id ops out = run_generic desc id ops out
 let registered = Registry.register "Larp" run
